@@ -415,64 +415,59 @@ def check_equity_sampling(repo, rep):
     rep.floor(rid, 8)
 
 
-def check_equity_sample_times(repo, rep):
+def check_equity_sample_times(repo, rep, tier="quick"):
     rid = "C16-R3b"
-    rep.rule(rid, "one equity sample per simulated day: the time loop of each simulator is interpreted for concrete session lengths and "
-                  "steps (callees recorded, no symbols): the samples taken inside the loop correspond one to one to the day boundaries "
-                  "b = 1440k, 0 < b < length, and the sample of boundary b is taken at the end of a step that ends in [b, b + 1440) - "
-                  "also when a fast-mode step is a whole day or several days long")
-    import ast as _ast
-    from vlib.absint import Frame
-    configs = {"_step_simulator": [(2880, 1), (4330, 1)],
-               "_skip_simulator": [(2880, 5), (4330, 5), (4330, 45), (2880, 720), (2880, 1440), (4320, 1440), (5770, 1440), (12960, 4320), (20170, 10080)]}
+    rep.rule(rid, "one equity sample per simulated day: both simulator functions are interpreted whole (engine E10, long light-weight "
+                  "sessions of one symbol; matcher, strategies, order store and the sampler recorded) for concrete session lengths and "
+                  "chunk lengths: the samples taken inside the session correspond one to one to the day boundaries b = 1440k, "
+                  "0 < b < length; the sample of boundary b is taken after the minute b - 1 has been matched, the strategies of that "
+                  "minute have run and the market orders are flushed - exactly at b when the chunk length divides a day (the two "
+                  "simulators then sample at the same instant), otherwise at the end of the chunk that contains b")
+    from vlib import minisession as MS
+    from props.sessions import minutes_of
+    configs = {"_step_simulator": [(2880, "15m"), (2890, "15m")] + ([(4330, "15m")] if tier == "thorough" else []),
+               "_skip_simulator": [(2880, "5m"), (4330, "5m"), (4330, "45m"), (2880, "12h"), (2880, "1D"), (4320, "1D"), (5770, "1D"), (12960, "3D"), (20170, "1W")]}
     for sim, cfgs in configs.items():
-        fn = repo.func(SL.BT, sim)
-        loops = [n for n in _ast.walk(fn) if isinstance(n, _ast.For) and SL.loop_id(n) == "time"]
-        if len(loops) != 1:
-            raise AnalysisError(f"{sim}: expected one time loop, found {len(loops)}")
-        loop = loops[0]
-        for length, step in cfgs:
-            cur = {"end": None}
-            samples = []
-            stubs = W.base_stubs()
-
-            def rec_exec(it, a, k, cur=cur):
-                cur["end"] = int(a[0].const_value()) + int(a[1].const_value())
-
-            def rec_prog(it, a, k, cur=cur, sim=sim):
-                if sim == "_step_simulator":
-                    cur["end"] = int(a[2].const_value()) + 1
-                return None
-            stubs[f"{SL.BT}:_execute_routes"] = rec_exec
-            stubs[f"{SL.BT}:_update_progress_bar"] = rec_prog
-            stubs[f"{SL.BT}:_simulate_new_candles"] = lambda it, a, k: None
-            stubs[f"{SL.BT}:_execute_market_orders"] = lambda it, a, k: None
-            stubs[f"{MODES_UTILS}:save_daily_portfolio_balance"] = lambda it, a, k, cur=cur, samples=samples: samples.append(cur["end"])
-            stubs[f"{SL.BT}:save_daily_portfolio_balance"] = stubs[f"{MODES_UTILS}:save_daily_portfolio_balance"]
-            it = Interp(repo, stubs=stubs)
-            app = Obj("AppState", name="store.app", attrs={}, open_world=True)
-            it.overrides[f"{W.STORE}:store"] = Obj("StoreClass", name="store", attrs={"app": app}, open_world=True)
-            it.overrides["jesse/routes/__init__.py:router"] = Obj("RouterClass", name="router", attrs={"routes": []}, open_world=True)
-            fcs = Obj("Candles", name="first_candles_set", attrs={"__getitem__": BoundBuiltin(lambda i, a, k: Arr([num(0)]))})
-            fr = Frame(repo.module(SL.BT), {"length": num(length), "candles_step": num(step), "candles": {}, "progressbar": Unknown("pb"),
-                                           "run_silently": True, "last_update_time": None, "first_candles_set": fcs})
-            try:
-                it.exec(loop, fr)
-            except NotInFragment as e:
-                raise AnalysisError(f"{sim} time loop not interpretable: {e}")
+        for length, tf in cfgs:
+            step = 1 if sim == "_step_simulator" else minutes_of(tf)
+            ses = MS.run(repo, sim, symbols=("AAA-USDT",), minutes=length, timeframe=tf, light=True)
+            evs = ses.events
+            raised = [e for e in evs if e[0] == "raise"]
+            if raised:
+                rep.violation(rid, f"{sim}|raises", f"{sim} with a session of {length} minutes and a step of {step} raises {raised[0][1]}")
+                rep.instance(rid, f"{sim}|{length}|{step}")
+                continue
+            samples, end, flushed = [], None, True
+            first_match = next((i for i, e in enumerate(evs) if e[0] == "match"), len(evs))
+            initial = [e for e in evs[:first_match] if e[0] == "sample"]
+            last_sample = max((i for i, e in enumerate(evs) if e[0] == "sample"), default=None)
+            order_bad = None
+            for i, e in enumerate(evs[first_match:], first_match):
+                if e[0] == "match":
+                    end, flushed = e[2] + e[3], False
+                elif e[0] == "flush":
+                    flushed = True
+                elif e[0] == "sample" and i != last_sample:
+                    samples.append(end)
+                    if not flushed:
+                        order_bad = f"the sample after minute {end} is taken before the market orders of that step are flushed"
             bounds = list(range(1440, length, 1440))
             bad = kind = None
-            if len(samples) != len(bounds):
+            if initial != [("sample", True)] or last_sample is None or evs[last_sample] != ("sample", False) or any(e[0] in ("match", "exec", "flush", "terminate") for e in evs[last_sample:]):
+                bad, kind = f"the session does not start with exactly one initial sample and end with the finishing sample (before the first candle: {initial}; last events: {[e for e in evs[-4:]]})", "initial-final"
+            elif order_bad:
+                bad, kind = order_bad, "daily-order"
+            elif len(samples) != len(bounds):
                 bad, kind = f"{len(samples)} samples inside the loop for {len(bounds)} completed days", "daily-count"
             else:
-                for b, t in zip(bounds, samples):
-                    if 1440 % step == 0 and t != b:
-                        bad, kind = f"the sample of the day ending at minute {b} is taken at minute {t}, not at the day boundary (the two simulators must sample at the same instant)", "daily-time"
+                for bnd, t in zip(bounds, samples):
+                    if 1440 % step == 0 and t != bnd:
+                        bad, kind = f"the sample of the day ending at minute {bnd} is taken at minute {t}, not at the day boundary (the two simulators must sample at the same instant)", "daily-time"
                         break
-                    if t is None or not (b <= t < b + 1440):
-                        bad = f"the sample of the day ending at minute {b} is taken at minute {t}"
+                    if t is None or not (bnd <= t < bnd + 1440):
+                        bad = f"the sample of the day ending at minute {bnd} is taken at minute {t}"
                         # a step longer than a day cannot observe the equity at the day boundaries inside it
-                        kind = "daily-time|step-longer-than-a-day" if step > 1440 and t is not None and b <= t < b + step else "daily-time"
+                        kind = "daily-time|step-longer-than-a-day" if step > 1440 and t is not None and bnd <= t < bnd + step else "daily-time"
                         break
             if bad:
                 rep.violation(rid, f"{sim}|{kind}", f"{sim} with a session of {length} minutes and a step of {step}: {bad} (sample minutes {samples[:6]}{'...' if len(samples) > 6 else ''})")
@@ -488,7 +483,7 @@ def run(repo: Repo, rep, tier: str):
     rep.guarded(check_strategy_metrics_memo, repo, rep)
     rep.guarded(check_ratio_constants, repo, rep)
     rep.guarded(check_equity_sampling, repo, rep)
-    rep.guarded(check_equity_sample_times, repo, rep)
+    rep.guarded(check_equity_sample_times, repo, rep, tier)
     from props.c16_ratios import check_ratio_formulas
     rep.guarded(check_ratio_formulas, repo, rep, tier)
     rep.undecided_item("ratio helpers on return series longer than 3 (4 in the thorough tier) days and their degenerate conventions (zero deviation, no losing day)")
